@@ -2,7 +2,7 @@
 (* The scenario space of the property, enumerated by plain model checking: the reachable "done" states of the case
    machine ARE the cases -- every n in NMin..NMax, every 2 <= t <= n, every subset of at least t shares, the honest
    combination and every single substitution.  Each case is printed once as a schedule for the executor (Split, then
-   Recover for the honest case, then Combine); secrets and messages are seeded by checks/c08.py. *)
+   Recover for the honest case, then Combine, then Replay for the honest case); secrets and messages are seeded by checks/c08.py. *)
 EXTENDS ThresholdBLS, Json
 CONSTANTS NMin, NMax
 SetToSortedSeq(S) == LET RECURSIVE f(_) f(R) == IF R = {} THEN <<>> ELSE LET m == CHOOSE x \in R : \A y \in R : x <= y
@@ -14,5 +14,6 @@ Sched == LET S == SetToSortedSeq(obs.S) IN
          <<[ev |-> "Split", n |-> n, t |-> t]>>
          \o (IF obs.sub.kind = "none" THEN <<[ev |-> "Recover", S |-> S]>> ELSE <<>>)
          \o <<[ev |-> "Combine", S |-> S, sub |-> obs.sub]>>
+         \o (IF obs.sub.kind = "none" THEN <<[ev |-> "Replay"]>> ELSE <<>>)
 Emit == phase # "done" \/ PrintT("@@SCHED@@" \o ToJson(Sched))
 ====
